@@ -102,6 +102,8 @@ type BlockResult struct {
 	EventKinds map[string]int
 	// Events are all ABCI events of the block in order (begin block, transactions, end block).
 	Events []abcitypes.Event
+	// BeginEvents / EndEvents are the events of BeginBlock and EndBlock alone.
+	BeginEvents, EndEvents []abcitypes.Event
 }
 
 // Propose makes the replica build a proposal block (PrepareProposal path).
@@ -195,9 +197,11 @@ func (r *Replica) resultAt(height int64, appHash []byte) *BlockResult {
 	}
 	if resp.BeginBlock != nil {
 		countEvents(resp.BeginBlock.Events)
+		res.BeginEvents = resp.BeginBlock.Events
 	}
 	if resp.EndBlock != nil {
 		countEvents(resp.EndBlock.Events)
+		res.EndEvents = resp.EndBlock.Events
 	}
 	for _, d := range resp.DeliverTxs {
 		countEvents(d.Events)
